@@ -495,6 +495,38 @@ def supplementary_names_rule(rep):
                "setPrefix ...) and by a DOM build of a well-formed document" % q, "src/xercesc/util/XMLChar.cpp")
 
 
+def attr_identity_rule(rep, rid="C13.g"):
+    rep.rule(rid, "removeAttributeNode removes the node it was given: in DOMElementImpl::removeAttributeNode the removal from the "
+             "attribute map is controlled (CFG controlling conditions) by the comparison of the attribute found under that name with "
+             "the oldAttr argument — an Attr of another element (or a free-standing one) with the same name must raise NOT_FOUND_ERR, "
+             "not make this element lose its own attribute; and DOMAttrImpl::setValue marks the attribute as specified on every "
+             "normal path (a changed value of a DTD-defaulted attribute must not be discarded as default content)")
+    g = core.run_xa([os.path.join(core.REPO, "src/xercesc/dom/impl/DOMElementImpl.cpp"), os.path.join(core.REPO, "src/xercesc/dom/impl/DOMAttrImpl.cpp")],
+                    cfg=r"^(DOMElementImpl::removeAttributeNode|DOMAttrImpl::setValue)$", flat=False)
+    cfg = guard.Cfg(g.cfg("DOMElementImpl::removeAttributeNode"))
+    ss = guard.sites(cfg, lambda x: x[0] == "c" and x[1].split("::")[-1] in ("removeNamedItemAt", "removeNamedItem"))
+    if not ss:
+        raise AnalysisBroken("DOMElementImpl::removeAttributeNode no longer removes from the attribute map")
+    for bid, i, el in ss:
+        ok = False
+        for cond, pol, _p in guard.controlling(cfg, bid):
+            if cond[0] == "b" and cond[1] in ("==", "!=") and (cond[1] == "==") == pol and any(
+                    isinstance(y, list) and y and y[0] == "p" and y[2] == "oldAttr" for side in (cond[2], cond[3]) for y in sx_walk(side)):
+                ok = True
+        rep.ob(rid, "removeAttributeNode@remove", ok, "removal only when the attribute found is the argument" if ok else
+               "DOMElementImpl::removeAttributeNode (line %s) removes the attribute found under the name without comparing it with the "
+               "oldAttr argument" % el.get("l"), "src/xercesc/dom/impl/DOMElementImpl.cpp:%s" % el.get("l", 0))
+    c2 = guard.Cfg(g.cfg("DOMAttrImpl::setValue"))
+
+    def marks(el):
+        return any(c[0] == "c" and c[1].split("::")[-1] == "isSpecified" and c[3] and c[3][0] == ["i", 1] for c in guard.el_top_calls(el))
+    st = guard.must_state(c2, gen_el=marks)
+    bad = [c2.line_of(p) for p in c2.preds[c2.exit] if not c2.throws(p) and not st(p, len(c2.blocks[p]["els"]))]
+    rep.ob(rid, "DOMAttrImpl::setValue/specified", not bad, "specified flag set on every normal path" if not bad else
+           "DOMAttrImpl::setValue can return (via line %s) without marking the attribute as specified: a DTD-defaulted attribute whose value "
+           "the application changed is still treated as default content" % bad, "src/xercesc/dom/impl/DOMAttrImpl.cpp")
+
+
 def run(rep):
     f = core.library_facts()
     rep.units.update(os.path.relpath(t, core.REPO) for t in f.tus)
@@ -503,6 +535,7 @@ def run(rep):
     validate_before_mutate(rep, f)
     hierarchy_rule(rep)
     supplementary_names_rule(rep)
+    attr_identity_rule(rep)
     from ..engines import arrays
     arrays.soh_rule(rep, f, "C13.d", lambda fn: "/dom/impl/" in fn["file"])
     diag.run(rep, f, "C13")
